@@ -368,6 +368,7 @@ pub fn check(tier: &str, started: Instant) -> i32 {
     let findings = runner::load_findings();
     let mut violations = 0u64;
     let mut known_seen = vec![];
+    let min_deadline = started.elapsed().as_secs() + 180;
     let mut minimise_left = 5;
     for (k, f) in &agg.failures {
         if let Some(kf) = runner::known(&findings, "C16", &f.signature) {
@@ -377,7 +378,7 @@ pub fn check(tier: &str, started: Instant) -> i32 {
         }
         violations += 1;
         let case: Case = serde_json::from_value(f.case.clone()).expect("case");
-        let (mcase, evals) = if minimise_left > 0 {
+        let (mcase, evals) = if minimise_left > 0 && started.elapsed().as_secs() < min_deadline {
             minimise_left -= 1;
             minimise(&case, &f.signature, 150, &scratch)
         } else {
